@@ -61,6 +61,22 @@ VALIDATORS = (None, 'pydantic', 'jsonschema')
 TEXTS = [json.dumps(x) for x in CORPUS] + ['{', '']
 
 
+STREAMS = [
+    '{"jsonrpc": "2.0", "method": "nosuch_{i}", "id": {i}}',
+    '{"jsonrpc": "2.0", "method": "v{i}.nosuch.m{i}", "id": "r{i}"}',
+    '{"jsonrpc": "2.0", "method": "nosuch_{i}"}',
+    '{"jsonrpc": "2.0", "method": "echo", "params": [{i}], "id": "r{i}"}',
+    '{"jsonrpc": "2.0", "method": "echo", "params": {"a": "s{i}", "b": [{i}]}, "id": {i}}',
+    '{"jsonrpc": "2.0", "method": "echo", "params": {"zz{i}": 1}, "id": {i}}',
+    '{"jsonrpc": "2.0", "method": "fail_rpc", "id": {i}}',
+    '{"jsonrpc": "2.0", "method": "fail_exc", "id": "e{i}"}',
+    '{"jsonrpc": "2.0", "method": "view.vm", "params": [{i}], "id": {i}}',
+    '{"jsonrpc": "1.{i}", "method": "echo", "id": {i}}',
+    '[{"jsonrpc": "2.0", "method": "echo", "params": [{i}], "id": {i}}, {"jsonrpc": "2.0", "method": "nosuch_{i}", "id": "b{i}"}]',
+    '{"broken": {i}',
+]
+
+
 def methods():
     ms = D.std_methods()
     ms.append(D.M('view2.vm', [D.P('a')], D.ECHO, view=True))       # a view without context
@@ -80,8 +96,9 @@ def methods():
 FMT_SCHEMA = {'type': 'object', 'properties': {'a': {'format': 'ipv4'}}}
 
 
-def make_case(texts, mode='history', n=None, threads=None, keying='fixed', validator=None, handlers=None, middlewares=None, cold=False):
-    c = {'suite': NAME, 'cfg': D.cfg(methods=methods(), handlers=handlers, middlewares=middlewares), 'texts': texts, 'loads': [S.load_result(t) for t in texts], 'mode': mode,
+def make_case(texts, mode='history', n=None, threads=None, keying='fixed', validator=None, handlers=None, middlewares=None, cold=False, vary=False):
+    c = {'suite': NAME, 'cfg': D.cfg(methods=methods(), handlers=handlers, middlewares=middlewares), 'texts': texts,
+         'loads': [S.load_result(t.replace('{i}', '0') if vary else t) for t in texts], 'mode': mode,
          'keying': keying}
     if validator:
         c['validator'] = validator
@@ -91,6 +108,8 @@ def make_case(texts, mode='history', n=None, threads=None, keying='fixed', valid
         c['threads'] = threads
     if cold:
         c['cold'] = True
+    if vary:
+        c['vary'] = True
     return c
 
 
@@ -133,6 +152,11 @@ def generate(tier, rng):
                 if n == 1000 and v and not thorough and text not in (TEXTS[10], TEXTS[5]):
                     continue
                 yield make_case([text], mode='repeat', n=n, validator=v)
+    # (b') a stream of requests that are all different (ever new method names, ids, parameters, broken texts): the number of live
+    # objects in the process does not grow with the number of requests served
+    for tmpl in STREAMS:
+        for v in (VALIDATORS if thorough else VALIDATORS[:1]):
+            yield make_case([tmpl], mode='repeat', n=1500 if thorough else 400, validator=v, vary=True)
     # (c) thread pools dispatching interleaved corpora
     for threads in ((2, 4, 8, 16) if thorough else (2, 8)):
         for _ in range(4 if thorough else 2):
@@ -263,11 +287,24 @@ def run_half(c, is_async):
         last = None
         # the context object must look like S.CTX to the recording bodies: patch the marker test by identity is
         # not possible, so bodies see an unknown object; only replies' kinds and liveness are observed here
-        for i in range(c['n']):
+        vary = c.get('vary')
+        warm = 40 if vary else 0
+        base = None
+        for i in range(c['n'] + warm):
             ctx = Ctx2()
-            refs.append(weakref.ref(ctx))
-            last = dispatch_on(d, c['texts'][0], is_async, ctx)
+            if not vary or i < warm:
+                refs.append(weakref.ref(ctx))
+            last = dispatch_on(d, c['texts'][0].replace('{i}', str(i)) if vary else c['texts'][0], is_async, ctx)
             del ctx
+            if vary and i == warm - 1:
+                last = None
+                gc.collect()
+                base = len(gc.get_objects())
+        if vary:
+            keep, last = last, None
+            gc.collect()
+            out['object_growth'] = len(gc.get_objects()) - base
+            last = keep
         if any(r() is not None for r in refs):
             gc.collect()        # contexts kept alive by a reference cycle only are not retained
         out['live_contexts'] = sum(1 for r in refs if r() is not None)
@@ -388,6 +425,8 @@ def oracle(prop, c, out):
                 fail('context-retained', f'{o["live_contexts"]} of {c["n"]} per-request context objects are still referenced after the dispatches returned')
             if o['cache_growth'] > len(c['cfg']['methods']) * (3 if c.get('validator') else 1):
                 fail('cache-grows', f'the validator caches grew by {o["cache_growth"]} entries over {c["n"]} dispatches')
+            if c.get('vary') and o.get('object_growth', 0) > c['n'] // 4:
+                fail('memory-grows', f'{o["object_growth"]} more live objects after {c["n"]} further requests (all different) had been served and answered')
         else:
             if o['serial'] != o['threaded']:
                 bad = next(i for i, (a, b) in enumerate(zip(o['serial'], o['threaded'])) if a != b)
